@@ -126,8 +126,11 @@ struct Explorer {
       // three margin classes: branch decisions and other literal tests (1e-6), the double-beta kernel's tests against its
       // tabulated / integrated spectra (tau = 10 x the measured table noise of this configuration), beta-sampler shapes
       // when the in-place clamp of fermi() fired (a lepton below 50 eV) the reference's own value of the spectrum function
-      // is ambiguous to ~5e-4: its expression uses the clamped variable on both sides of the call, in unspecified order
-      double tau_table = d0ref::mon.clamp_fired ? std::max(tau, 2e-3) : tau;
+      // is ambiguous: its expression uses the clamped variable on both sides of the call, in unspecified order
+      // (how much depends on the other factors: (e0-e1-e2)^n and, in modes 8 and 16, (e1-e2)^2 move by n x 50 eV/(e0-e1)
+      // resp. 2 x 50 eV/|e1-e2|, several per cent for a first lepton of a few keV; 2e-3 was not enough - the thorough
+      // tier of C02 showed disagreements up to a margin of 2.3e-3 in exactly these two modes: 0.25 is demanded)
+      double tau_table = d0ref::mon.clamp_fired ? 0.25 : tau;
       o.robust = o.margin >= 1e-6 && d0ref::mon.min_tmargin >= tau_table && d0ref::mon.min_smargin >= tau_shape;
       o.margin = std::min(std::min(o.margin, d0ref::mon.min_smargin), d0ref::mon.min_tmargin);
       if (!o.robust && count && !in_sweep) { nonrobust++; if (getenv("DX_DEBUG")) fprintf(stderr, "nonrobust: margin=%g line=%d tmargin=%g smargin=%g qmargin=%g forced=%s\n", d0ref::mon.min_margin, d0ref::mon.min_margin_line, d0ref::mon.min_tmargin, d0ref::mon.min_smargin, d0ref::mon.min_qmargin, vx::forced_to_json(f).c_str()); } // (ladder and sweep probes sit next to a threshold on purpose)
